@@ -147,3 +147,17 @@ Proof.
   split; [vm_compute; reflexivity|]. split; [vm_compute; reflexivity|]. split; [vm_compute; reflexivity|].
   split; [vm_compute; reflexivity|]. split; vm_compute; reflexivity.
 Qed.
+
+(* date/time parsers (new finding): a month 14, a char below '0', a year whose ticks leave int64;
+   a canonical timestamp and the largest month the table holds are fine *)
+Lemma c03_datetime_ub_lemma :
+  dt_ub ft_UTCTimestamp (bytes_of_string "20231401-00:00:00") = Some true /\
+  dt_ub ft_UTCTimestamp (bytes_of_string "2023-101-00:00:00.000") = Some true /\
+  dt_ub ft_LocalMktDate (bytes_of_string "99990101") = Some true /\
+  dt_ub ft_UTCTimestamp (bytes_of_string "20230101-00:00:00.000") = Some false /\
+  dt_ub ft_UTCTimestamp (bytes_of_string "20391301-00:00:00") = Some false /\
+  dt_ub ft_UTCTimestamp (bytes_of_string "2023") = None.
+Proof.
+  split; [vm_compute; reflexivity|]. split; [vm_compute; reflexivity|]. split; [vm_compute; reflexivity|].
+  split; [vm_compute; reflexivity|]. split; vm_compute; reflexivity.
+Qed.
